@@ -292,6 +292,19 @@ REUSE_SCENARIOS = [
     ("repeat-range-error", "", "'x'.repeat(-1)", "", "['x'.repeat(3), 'ab'.repeat(0)]"),
     ("deep-recursion-caught-outside", "function rec(n) { return rec(n + 1) + 1; }", "rec(0)", "", "[(function f(n) { return n ? f(n - 1) + 1 : 0; })(20), typeof rec]"),
     ("callback-throws-in-nested-natives", "var nn = [[1, 2], [3]];", "nn.map(function (r) { return r.filter(function (x) { if (x === 3) { throw new Error('n'); } return true; }); })", "", "[nn.map(function (r) { return r.length; }).join(), nn.length]"),
+    # failures that come from exhausting a resource half-way through a traversal (whatever bookkeeping the traversal keeps - guard
+    # sets, path stacks, depth counters - must be as if it had never started); the last element is the value the reuse must give
+    ("deep-array-to-string", "var top = [7]; for (var di = 0; di < 3000; di++) { top = [top]; }", "String(top)", "top[0] = 7; top.push(8);",
+     "[top.join(), String(top), top + '', [top, top].join('|'), top.length, [1, [2, [3]]].join()]", ["7,8", "7,8", "7,8", "7,8|7,8", 2, "1,2,3"]),
+    ("deep-array-join-then-others", "var dj = [1]; for (var dk = 0; dk < 3000; dk++) { dj = [dj, 2]; }", "dj.join('-')", "",
+     "(function () { var fresh = []; for (var q = 0; q < 400; q++) { fresh.push([q, [q]].join()); } var bad = 0; for (var q2 = 0; q2 < 400; q2++) { if (fresh[q2] !== q2 + ',' + q2) { bad++; } } return [bad, dj.length, dj[1], String(dj[0][1])]; })()", [0, 2, 2, "2"]),
+    ("deep-object-stringify", "var dob = {v: 1}; for (var dn = 0; dn < 3000; dn++) { dob = {k: dob}; }", "JSON.stringify(dob)", "dob.k = {v: 2};",
+     "[JSON.stringify(dob), JSON.stringify([dob, dob]), JSON.stringify({a: {b: {c: [1]}}})]", ['{"k":{"v":2}}', '[{"k":{"v":2}},{"k":{"v":2}}]', '{"a":{"b":{"c":[1]}}}']),
+    ("deep-json-parse", "var dtxt = ''; for (var dp = 0; dp < 3000; dp++) { dtxt += '['; } var dtxt2 = dtxt; for (var dp2 = 0; dp2 < 3000; dp2++) { dtxt2 += ']'; }", "JSON.parse(dtxt2)", "",
+     "[JSON.parse('[[1],[2]]').length, JSON.stringify(JSON.parse('{\"a\":[{\"b\":1}]}'))]", [2, '{"a":[{"b":1}]}']),
+    ("catastrophic-regexp-then-reuse", "var cre = /(a+)+b/; var csub = 'aaaaaaaaaaaaaaaaaaaaaaaaaaaaaaaaaaaaaaaaac';", "cre.test(csub)", "",
+     "[cre.test('aab'), cre.exec('xaab')[1], 'aab'.replace(cre, '-'), /a+/.exec('caab')[0]]", [True, "aa", "-", "aa"]),
+    ("deep-recursion-then-array-string", "function drec(n) { return drec(n + 1) + 1; } var dra = [[1, 2], [3]];", "drec(0)", "", "[String(dra), dra.join('|'), [dra, dra] + '']", ["1,2,3", "1,2|3", "1,2,3,1,2,3"]),
     ("stringify-then-memory-limit", "var big = []; for (var bi = 0; bi < 50; bi++) { big.push({i: bi}); }", "JSON.stringify(big); (function r() { return r(); })()", "", "[JSON.stringify(big).length > 100, JSON.stringify([big[0], big[0]])]"),
 ]
 
@@ -505,7 +518,7 @@ def main(ctx):
     try:
         hres = ep.map({"mod": "checks.C12", "fn": "w_history"}, [c for c, _ in hist], batch=10, timeout=300)
         fres = ep.map({"mod": "checks.C12", "fn": "w_fault"}, fscripts, batch=1, timeout=900)
-        ucases = [{"name": n, "setup": su, "fail": fa, "repair": rp, "reuse": ru} for n, su, fa, rp, ru in REUSE_SCENARIOS]
+        ucases = [{"name": sc[0], "setup": sc[1], "fail": sc[2], "repair": sc[3], "reuse": sc[4], "expect": sc[5] if len(sc) > 5 else None} for sc in REUSE_SCENARIOS]
         ures = ep.map({"mod": "checks.C12", "fn": "w_reuse"}, ucases, batch=3, timeout=300)
         ires = ep.map({"mod": "checks.C12", "fn": "w_isolation"}, [{"mutations": CREATED_MUTATIONS + MUTATIONS, "probe": PROBE}], batch=1, timeout=300)
     finally:
@@ -607,6 +620,8 @@ def main(ctx):
         bad = [v for v in ("caught", "uncaught") if r[v] != r["twin"]]
         if r["twin"][0] != "ok":
             bad.append("twin itself failed")
+        if c.get("expect") is not None and r["twin"][0] == "ok" and numnorm12(r["twin"][1]) != numnorm12(penc12(c["expect"])):
+            bad.append("twin (which never ran the failing operation itself, but shares the process with contexts that did) gives a wrong value")
         if bad:
             ctx.violation(("reuse-after-failed-operation", c["name"], bad[0]), {"case": c, "observed": r, "monitor": "same context after a failed operation vs a twin that never ran it"})
         else:
@@ -645,3 +660,29 @@ def main(ctx):
     ctx.sample({"fault_script": fscripts[0]["stmts"]})
     ctx.sample({"history_ops": hist[0][0]["ops"][:6]})
     ctx.assumptions += ["faults are the engine's own TimeLimitError/MemoryLimitError/RegexTimeoutError raised at the loop heads where the engine itself raises them"]
+
+
+def penc12(v):
+    if v is None:
+        return ["N"]
+    if isinstance(v, bool):
+        return ["b", v]
+    if isinstance(v, (int, float)):
+        import struct
+        return ["d", struct.pack(">d", float(v)).hex()]
+    if isinstance(v, str):
+        return ["s", v]
+    if isinstance(v, list):
+        return ["l", [penc12(x) for x in v]]
+    return ["m", [[k, penc12(x)] for k, x in v.items()]]
+
+
+def numnorm12(e):
+    import struct
+    if e[0] == "i":
+        return ["d", struct.pack(">d", float(int(e[1]))).hex()]
+    if e[0] == "l":
+        return ["l", [numnorm12(x) for x in e[1]]]
+    if e[0] == "m":
+        return ["m", [[k, numnorm12(x)] for k, x in e[1]]]
+    return e
